@@ -190,7 +190,7 @@ func TestVerifC16_ProcLive(t *testing.T) {
 			sentinel := fmt.Sprintf("s%dq", i)
 			sb := "change-query(" + sentinel + ")"
 			rawRequest(s.Port, []byte(fmt.Sprintf("POST / HTTP/1.1\r\n%sContent-Length: %d\r\n\r\n%s", hdr, len(sb), sb)), 0, 0)
-			before, okS := s.waitKeyed(key, func(st *Status) bool { return st.Query == sentinel && !st.Reading })
+			before, okS := s.waitKeyed(key, func(st *Status) bool { return st.Query == sentinel && !st.Reading && st.MatchCount == 0 && st.Position <= 0 })
 			if !okS {
 				t.Fatalf("sentinel query did not become visible\nhistory: %v", history)
 			}
